@@ -116,6 +116,17 @@ pub fn substitute(len: usize, sub: &str, r: u64, orig: &[u8]) -> Vec<u8> {
         (32, "q") => bad::scalar_q().to_vec(),
         (32, "q+1") => bad::scalar_q_plus_1().to_vec(),
         (32, "closetag") => crate::refc::scb(&crate::refc::close_tag()).to_vec(),
+        (32, "closetag+q") => {
+            let tag = crate::refc::scb(&crate::refc::close_tag());
+            let mut b = bad::scalar_q();
+            let mut carry = 0u16;
+            for i in 0..32 {
+                let v = b[i] as u16 + tag[i] as u16 + carry;
+                b[i] = v as u8;
+                carry = v >> 8;
+            }
+            b.to_vec()
+        }
         (32, "other") => crate::refc::scb(&crate::refc::rand_scalar(&mut s)).to_vec(),
         (8, "2^63") => (1u64 << 63).to_le_bytes().to_vec(),
         (8, "2^64-1") => u64::MAX.to_le_bytes().to_vec(),
@@ -132,7 +143,7 @@ pub fn substitutes_for(kind: AtomKind, len: usize) -> Vec<&'static str> {
     match (kind, len) {
         (AtomKind::Bytes, 48) => vec!["identity", "offcurve", "nonsub", "other", "random"],
         (AtomKind::Bytes, 96) => vec!["identity", "offcurve", "nonsub", "other", "random"],
-        (AtomKind::Bytes, 32) => vec!["q", "q+1", "ones", "closetag", "zero", "other"],
+        (AtomKind::Bytes, 32) => vec!["q", "q+1", "ones", "closetag", "closetag+q", "zero", "other"],
         (AtomKind::U64, 8) => vec!["2^63", "2^64-1", "2^63-1", "zero"],
         (AtomKind::I64, 8) => vec!["imin", "imin+1", "2^63-1", "zero"],
         (AtomKind::U8, 1) => vec!["inc", "ones"],
